@@ -161,11 +161,14 @@ def check_apply(params):
     def bad(kind, msg):
         out.append((_sig(kind, params), "[%s functor ob=%s ar_mode=%s %s] on %s: %s"
                     % (cls, obmap, params["ar_mode"], params["supply"], d, msg)))
+    ar_before = dict(ar)
     try:
         Fd = F(d)
     except Exception as e:  # noqa
         bad("raises", "F(d) raised %r" % (e,))
         return out
+    if params["supply"] == "dict" and (dict(F.ar) != ar_before or len(F.ob) != len(obmap)):
+        bad("mapping-mutated", "applying the functor changed the mappings it was built from")
     want_dom = build.atoms_key(ref_ty_image(recipe[1], obmap))
     cod_atoms = tuple(_atoms(d.cod))
     want_cod = build.atoms_key(ref_ty_image(cod_atoms, obmap))
